@@ -2,8 +2,9 @@
 only when its content changed."""
 import importlib
 SVC = ['harness_backend']
-DEPS = {p: SVC for p in ['C01','C02','C03','C04','C05','C06','C07','C08','C09','C10','C11','C12','C13','C14','C15','C16','C17','C18','C19','C20']}
+DEPS = {p: list(SVC) for p in ['C01','C02','C03','C04','C05','C06','C07','C08','C09','C10','C11','C12','C13','C14','C15','C16','C17','C18','C19','C20']}
 def regen(prop):
     names = sorted({t for p, ts in DEPS.items() if prop is None or p == prop for t in ts})
     for n in names:
         importlib.import_module("translate." + n).main()
+DEPS['C01'] += ['routes', 'smithy_ops']
